@@ -775,7 +775,9 @@ def run(ctx: Context):
         for (g, kinds, what) in ((ro_, ("read",), None), (rn_, ("read",), ro_), (wn_, ("write",), ro_)):
             gp = first_positional_params(g)[0]
             if what is None:
-                want = lambda v, e: v == "self.EXTRA_LEASE_OFFSET"
+                elo_ = fo.class_attr(ci, "EXTRA_LEASE_OFFSET")
+                want = lambda v, e, g=g, elo_=elo_: v == "self.EXTRA_LEASE_OFFSET" or (
+                    isinstance(elo_, int) and _fold(fo, e, g.module, g.cls) == elo_)
                 where_ = "EXTRA_LEASE_OFFSET"
             else:
                 want = lambda v, e, gp=gp: v == "self._read_extra_lease_offset(%s)" % gp
